@@ -1,6 +1,7 @@
 use crate::common::Ctx;
 pub mod c15;
 pub mod c15_text;
+pub mod c15_bin;
 pub mod c07;
 pub mod c08;
 pub mod c08_tok;
